@@ -26,7 +26,10 @@ M2 = ['{b: 3}', '{<<: *m1, b: 3}', '{<<: *m1}', '{<<: [*m1], c: 4, a: 5}', '{a: 
 M3 = [None, '{<<: *m2, c: 8}', '{<<: [*m2, *m1], d: 9}']
 OWN = ['!!seq x: 1', '!!map y: 2', '!!set z: 3', 'a: 10', 'b: 20', 'c: 30', 'a: 11', '1: x', '1.0: y', 'true: z', "'<<': 5", '!!str <<: 6', '[k]: 7', '{k: v}: 8', 'e: *m1', '"<<": *m1']
 MERGES = ['<<: *m1', '<<: *m2', '<<: [*m1, *m2]', '<<: [*m2, *m1]', '<<: {a: 90, z: 91}', '<<: [{a: 92}, *m1]', '<<: x', '<<: ~', '<<: [x]',
-          '<<: [[*m1]]', '<<: []', '<<: [*m1, *m1]', '<<: {<<: *m2, q: 1}', '<<: *m3']
+          '<<: [[*m1]]', '<<: []', '<<: [*m1, *m1]', '<<: {<<: *m2, q: 1}', '<<: *m3',
+          # members of a merge list that are written in place and carry a merge of their own; merged keys whose text equals
+          # the text of an own key of another type ('1' / 1, 'true' / true) or is the same key written differently
+          '<<: [{<<: *m1, q: 1}, {<<: [{s: 7}], a: 93}]', "<<: {'1': 94, 'true': 95, !!str a: 96, 1.0: 97}"]
 
 
 def bounds(tier, seed):
